@@ -49,6 +49,7 @@ type c12Exp struct {
 	id       uint16
 	altLocal time.Time // prediction of the known-defect model (local time becoming the reference)
 	altTs    time.Time
+	localAny bool // the reference is a system time (below 0x10000000): the property does not say what offset results
 }
 
 type c12Model struct {
@@ -136,6 +137,7 @@ func c12Stream(ops []c12Op, big bool) ([]byte, []c12Exp, *c12Exp, string) {
 			return
 		}
 		e.local = localTime(m.has && m.ref >= 0x10000000, m.ref, l)
+		e.localAny = m.has && m.ref < 0x10000000
 		kHas := m.khas && m.kref >= 0x10000000
 		e.altLocal = localTime(kHas, m.kref, l)
 		if !kHas {
@@ -230,7 +232,7 @@ func c12Check(ops []c12Op, big bool) (stream []byte, msg string, known bool) {
 		if e.hasLocal {
 			wantL, altL = tdump(e.local), tdump(e.altLocal)
 		}
-		if glt != wantL {
+		if glt != wantL && !e.localAny {
 			if first == "" {
 				first = fmt.Sprintf("message #%d (%s): LocalTimestamp %s, model %s", i, ops2(ops), glt, wantL)
 			}
@@ -269,9 +271,9 @@ func init() {
 	vx.Register(&vx.Prop{
 		ID:    "C12",
 		Level: "model_checking",
-		Rule: "timestamp machine (reference or none; 5-bit offset = reference mod 32) explored on the real decoder: all words of length <=4 (quick) / <=5 (thorough) over {explicit timestamp in 8 values incl. invalid, 2^32-2, 0x10000000; compressed record with offsets {0,1,15,16,30,31}; compressed record carrying an explicit timestamp; compressed record of a message without timestamp field; compressed record of an unknown message; compressed record under a zero-field definition; local timestamp without/with explicit timestamp in the same message} in a monitoring_b file, both byte orders; all 32x32 offset pairs after each of 6 references; runs of 70 compressed records (4 stride patterns); a non-253 date_time field that must not re-base (activity file). " +
+		Rule: "timestamp machine (reference or none; 5-bit offset = reference mod 32) explored on the real decoder: all words of length <=4 (quick) / <=5 (thorough) over {explicit timestamp in 10 values incl. invalid, 2^32-2, 0x10000000 and two below it (system time); compressed record with offsets {0,1,15,16,30,31}; compressed record carrying an explicit timestamp; compressed record of a message without timestamp field; compressed record of an unknown message; compressed record under a zero-field definition; local timestamp without/with explicit timestamp in the same message} in a monitoring_b file, both byte orders; all 32x32 offset pairs after each of 6 references; runs of 70 compressed records (4 stride patterns); a non-253 date_time field that must not re-base (activity file). " +
 			"Oracle: the property's timestamp rules; states = distinct model states (has reference, reference value) reached; transitions = records applied; traces = streams decoded",
-		Assumptions: []string{"reference value 0 and references below 0x10000000 interacting with local time are outside the alphabet (the property is silent)", "a compressed record with no preceding timestamp carries no timestamp demand"},
+		Assumptions: []string{"reference value 0 is outside the alphabet; a local timestamp decoded while the reference is below 0x10000000 (system time) carries no demand (the property is silent)", "a compressed record with no preceding timestamp carries no timestamp demand"},
 		Run:         runC12,
 		Replay: func(raw json.RawMessage) (string, error) {
 			if s, ok, err := mixReplay(raw); ok {
@@ -300,7 +302,7 @@ func runC12(w *vx.W) {
 	c10MixChains(w) // the same words as members of a chain: nothing may cross a file boundary
 	T := uint32(c12T)
 	var alpha []c12Op
-	for _, v := range []uint32{T, T + 1, T + 31, T + 32, T | 31, 0xFFFFFFFE, 0xFFFFFFFF, 0x10000000} {
+	for _, v := range []uint32{T, T + 1, T + 31, T + 32, T | 31, 0xFFFFFFFE, 0xFFFFFFFF, 0x10000000, 1000, 0x0FFFFFF0} {
 		alpha = append(alpha, c12Op{Kind: "E", V: v})
 	}
 	for _, o := range []byte{0, 1, 15, 16, 30, 31} {
